@@ -109,7 +109,7 @@ def tg(name, entry, funcs, props, inst, **kw):
 GROUPS = [
     # every (tree, key) pair with allocation succeeding: fully concrete structure, values symbolic
     tg('put', 'h_put', ['qtreetbl_putobj', 'put_obj', 'new_obj', 'rotate_left', 'rotate_right', 'flip_color', 'is_red', 'qtreetbl_free', 'free_objs'],
-       ['C01', 'C02', 'C11', 'C12', 'C14'], [dict(d, weight=4) if (d['TD'] == 3 and d['PROBE'] % 2 == 0) else d for d in probe_inst(5, 9)
+       ['C01', 'C02', 'C11', 'C12', 'C14'], [dict(d, weight=4, tier='thorough') if (d['TD'] == 3 and d['PROBE'] % 2 == 0) else (dict(d, tier='thorough') if (d['TD'] == 3 and (d['SHAPE'] + d['PROBE']) % 2 == 0) else d) for d in probe_inst(5, 9)
         # insertion of a NEW key into a height-3 tree costs 4-6 GB and minutes: registered for every third tree only (thorough)
         if not (d['TD'] == 3 and d['PROBE'] % 2 == 0 and (d['SHAPE'] * 7 + d['COLORS']) % 3 != 0)],
        flags=['--memory-leak-check', '--no-malloc-may-fail'], defines=['-DNOFAIL']),
@@ -156,9 +156,9 @@ GROUPS.append(dict(name='tree_dfcc_move_red_right', harness='qtreetbl/helpers_df
                    replace=['flip_color', 'rotate_right'], props=['C02', 'C11'], functions=['move_red_right', 'flip_color (by contract)', 'rotate_right (by contract)'],
                    units=U, strength='proof', timeout=300, require_canary=False, replay=False, bound='none (loop-free; callee bodies replaced by their contracts)'))
 
-GROUPS.append(dict(name='tree_dfcc_move_red_left', harness='qtreetbl/helpers_dfcc.c', entry='h_dfcc_move_red_left', mode='dfcc', enforce=['move_red_left'], solver='kissat',
-                   replace=['flip_color', 'rotate_right', 'rotate_left'], props=['C02', 'C11'], functions=['move_red_left', 'flip_color (by contract)', 'rotate_right (by contract)', 'rotate_left (by contract)'],
-                   units=U, strength='proof', timeout=1200, require_canary=False, replay=False, bound='none (loop-free; callee bodies replaced by their contracts)'))
+GROUPS.append(dict(name='tree_dfcc_move_red_left', harness='qtreetbl/helpers_dfcc.c', entry='h_dfcc_move_red_left', mode='dfcc', enforce=['move_red_left'], solver='cadical',
+                   replace=[], props=['C02', 'C11'], functions=['move_red_left', 'flip_color', 'rotate_right', 'rotate_left'],
+                   units=U, strength='proof', timeout=400, require_canary=False, replay=False, bound='none (loop-free; arbitrary fresh nodes; callee bodies inlined - the modular variant with three replaced callee contracts did not finish in 20 min)'))
 
 # window induction for put_obj (DESIGN.md 1.4): unbounded in tree size; the recursive self-call is the induction hypothesis
 # (weave rule rename_calls), qtreetbl_putobj is checked against the put_obj contract at the root
